@@ -244,14 +244,22 @@ func names(prog []op) string {
 	return strings.Join(ns, ",")
 }
 
-// runPipelined queues prog on one Pipeline (tx=false) or TxPipeline (tx=true) object, calling Exec after each segment
-// (segs are segment lengths; more than one segment = the pipeline object is reused after Exec), and judges it
-// against the direct run.
-func (ck *checker) runPipelined(caseID string, tx bool, viaFunc bool, prog []op, want []direct, segs []int) {
+// runPipelined queues prog on one pipeline that descends from adapter.Pipeline (rt.tx=false) or adapter.TxPipeline
+// (rt.tx=true), obtained and executed the way route rt says, executing after each segment (segs are segment lengths;
+// more than one segment = the pipeline object is reused after Exec), and judges it against the direct run.
+func (ck *checker) runPipelined(caseID string, rt route, prog []op, want []direct, segs []int) {
 	run := ck.run
+	tx, viaFunc := rt.tx, rt.rootFunc
 	mode := "pipeline"
 	if tx {
 		mode = "txpipeline"
+	}
+	// wire findings on a route that goes through a pipeline value are named after the route
+	wireKey := func(k string) string {
+		if rt.derived() {
+			return mode + "/via " + rt.head()
+		}
+		return mode + "/" + k
 	}
 	e, err := newEnv()
 	if err != nil {
@@ -260,7 +268,7 @@ func (ck *checker) runPipelined(caseID string, tx bool, viaFunc bool, prog []op,
 	}
 	defer e.close()
 	wit := func(extra map[string]any) map[string]any {
-		m := map[string]any{"case": caseID, "mode": mode, "program": progString(prog), "segments": segs, "via_pipelined_func": viaFunc}
+		m := map[string]any{"case": caseID, "mode": mode, "route": rt.String(), "program": progString(prog), "segments": segs, "via_pipelined_func": viaFunc}
 		for k, v := range extra {
 			m[k] = v
 		}
@@ -268,15 +276,24 @@ func (ck *checker) runPipelined(caseID string, tx bool, viaFunc bool, prog []op,
 	}
 	var p rueidiscompat.Pipeliner
 	if !viaFunc {
-		if tx {
-			p = e.ad.TxPipeline()
-		} else {
-			p = e.ad.Pipeline()
+		var pn string
+		func() {
+			defer func() {
+				if r := recover(); r != nil {
+					pn = fmt.Sprint(r)
+				}
+			}()
+			p = rt.value(e.ad)
+		}()
+		if pn != "" || p == nil {
+			run.Violation("panic", mode+"/obtain "+rt.head(), wit(map[string]any{"panic": pn, "nil_pipeline": p == nil}))
+			return
 		}
 	}
 	pos := 0
 	taint := "" // a call that sent no command was queued on this pipeline object earlier (its Cmder may still sit in the pipeline)
 	for si, n := range segs {
+		tx := rt.tx // (an open route may turn out to use MULTI/EXEC in this segment)
 		seg, wseg := prog[pos:pos+n], want[pos:pos+n]
 		pos += n
 		held := make([]R, n)
@@ -312,12 +329,12 @@ func (ck *checker) runPipelined(caseID string, tx bool, viaFunc bool, prog []op,
 		var cmders []R
 		var execErr error
 		var queuePanic string
-		queue := func(p rueidiscompat.Pipeliner) {
+		queue := func(p rueidiscompat.Pipeliner) bool {
 			for i, o := range seg {
 				c, pn := safeCall(o, p)
 				if pn != "" {
 					queuePanic = fmt.Sprintf("%s: %s", o.desc, pn)
-					return
+					return false
 				}
 				held[i] = c
 				wantLen := 0
@@ -335,6 +352,7 @@ func (ck *checker) runPipelined(caseID string, tx bool, viaFunc bool, prog []op,
 					run.Violation("sent-before-exec", mode+"/"+names(seg), wit(map[string]any{"received": got[0].Argv}))
 				}
 			}
+			return true
 		}
 		func() {
 			defer func() {
@@ -342,21 +360,9 @@ func (ck *checker) runPipelined(caseID string, tx bool, viaFunc bool, prog []op,
 					queuePanic = "Exec: " + fmt.Sprint(pn)
 				}
 			}()
-			if viaFunc {
-				fn := func(p rueidiscompat.Pipeliner) error { queue(p); return nil }
-				if tx {
-					cmders, execErr = e.ad.TxPipelined(ctx, fn)
-				} else {
-					cmders, execErr = e.ad.Pipelined(ctx, fn)
-				}
-			} else {
-				queue(p)
-				if queuePanic == "" {
-					cmders, execErr = p.Exec(ctx)
-					if p.Len() != 0 {
-						run.Violation("len", mode+"/after-exec", wit(map[string]any{"len": p.Len()}))
-					}
-				}
+			cmders, execErr = rt.exec(e.ad, p, queue)
+			if p != nil && queuePanic == "" && p.Len() != 0 {
+				run.Violation("len", mode+"/after-exec", wit(map[string]any{"len": p.Len()}))
 			}
 		}()
 		if queuePanic != "" && nocmdCtx {
@@ -372,6 +378,16 @@ func (ck *checker) runPipelined(caseID string, tx bool, viaFunc bool, prog []op,
 			run.Observe("reused_after_exec", 1)
 		}
 		got := received(e.s, n0)
+		if rt.open() && nCmds > 0 {
+			// a plain pipeline that went through a Tx-named step: the statement does not say whether it becomes a
+			// transaction (go-redis keeps it plain); it is judged as what it turned out to be
+			if len(got) > 0 && len(got[0].Argv) == 1 && strings.EqualFold(got[0].Argv[0], "MULTI") {
+				tx = true
+				run.Observe("plain_value_after_tx_named_step_sent_multi", 1)
+			} else {
+				run.Observe("plain_value_after_tx_named_step_sent_plain", 1)
+			}
+		}
 
 		// ---- what reached the server
 		var wantArgv [][]string
@@ -393,10 +409,16 @@ func (ck *checker) runPipelined(caseID string, tx bool, viaFunc bool, prog []op,
 					g = append(g, ev.Argv)
 					conns = append(conns, ev.Conn)
 				}
-				run.Violation("tx-wire", mode+"/"+names(seg), wit(map[string]any{"want": full, "received": g, "conns": conns}))
+				run.Violation("tx-wire", wireKey(names(seg)), wit(map[string]any{"want": full, "received": g, "conns": conns}))
 				return
 			}
 			run.Observe("tx_batches_on_wire", 1)
+			if rt.tx && rt.derived() {
+				run.Observe("tx_wire_checked_on_route_through_pipeline_value", 1)
+			}
+			for _, st := range rt.steps() {
+				run.Observe(st, 1)
+			}
 			// replies of that connection, in order: MULTI, the queued commands, EXEC
 			var replies []fakeredis.Event
 			for _, ev := range e.s.Log()[n0:] {
@@ -431,11 +453,18 @@ func (ck *checker) runPipelined(caseID string, tx bool, viaFunc bool, prog []op,
 				for _, ev := range got {
 					g = append(g, ev.Argv)
 				}
-				key := mode + "/" + names(seg)
+				key := wireKey(names(seg))
 				if nocmdCtx {
 					key = mode + "/after-call-without-command"
 				}
 				run.Violation("pipeline-wire", key, wit(map[string]any{"want": wantArgv, "received": g}))
+			} else if nCmds > 0 {
+				if rt.derived() {
+					run.Observe("pipeline_wire_checked_on_route_through_pipeline_value", 1)
+				}
+				for _, st := range rt.steps() {
+					run.Observe(st, 1)
+				}
 			}
 		} else if len(got) != 0 {
 			run.Violation("tx-wire", mode+"/empty", wit(map[string]any{"received": got[0].Argv}))
@@ -545,8 +574,23 @@ func (ck *checker) runPipelined(caseID string, tx bool, viaFunc bool, prog []op,
 			run.Observe("pipeline_exec_checked", 1)
 		}
 		nontrivial := len(seg) > 1
-		ck.run.Case(fmt.Sprintf("%s|%v|%s", mode, viaFunc, names(seg)), nontrivial)
+		if rt.derived() {
+			ck.run.Case(fmt.Sprintf("%s|%s|%s", mode, rt.String(), names(seg)), nontrivial)
+		} else {
+			ck.run.Case(fmt.Sprintf("%s|%v|%s", mode, viaFunc, names(seg)), nontrivial)
+		}
 	}
+}
+
+// guard runs f and returns what it panicked with ("" when it did not).
+func guard(f func()) (panicked string) {
+	defer func() {
+		if p := recover(); p != nil {
+			panicked = fmt.Sprint(p)
+		}
+	}()
+	f()
+	return ""
 }
 
 func firstNoCmd(seg []op, w []direct) string {
@@ -559,7 +603,7 @@ func firstNoCmd(seg []op, w []direct) string {
 }
 
 // abortScenarios: WATCH-style aborts, Discard, empty pipelines.
-func (ck *checker) abortScenarios(caseID string, rng *rand.Rand) {
+func (ck *checker) abortScenarios(caseID string, rng, rt *rand.Rand) {
 	run := ck.run
 	g := newGen(rng, caseID+"w")
 	wk, ok2, ctr := g.tok("watched"), g.tok("other"), g.tok("ctr")
@@ -572,6 +616,12 @@ func (ck *checker) abortScenarios(caseID string, rng *rand.Rand) {
 		if err != nil {
 			run.Inconclusive("client setup failed: " + err.Error())
 			return
+		}
+		// the transaction pipeline is obtained from the Tx and executed on any route (half of the time the plain
+		// tx.TxPipelined(fn) the driver always used)
+		route := route{tx: true, rootFunc: true}
+		if rt.Intn(3) != 0 {
+			route = randRoute(rt, true, rt.Intn(3) == 0)
 		}
 		node := e.s.Node(addr)
 		node.Exec("SET", wk, v0)
@@ -592,16 +642,20 @@ func (ck *checker) abortScenarios(caseID string, rng *rand.Rand) {
 					node.Exec("SET", ok2, vx)
 				}
 				var err error
-				cmders, err = tx.TxPipelined(ctx, func(p rueidiscompat.Pipeliner) error {
+				cmders, err = route.exec(tx, route.value(tx), func(p rueidiscompat.Pipeliner) bool {
 					set = p.Set(ctx, wk, v1, 0)
 					incr = p.Incr(ctx, ctr)
 					get = p.Get(ctx, wk)
-					return nil
+					return true
 				})
 				return err
 			}, wk)
 		}()
-		wit := map[string]any{"case": caseID, "conflict": conflict, "err": fmt.Sprint(err), "panic": panicked}
+		via := ""
+		if route.derived() {
+			via = " via tx." + route.head()
+		}
+		wit := map[string]any{"case": caseID, "conflict": conflict, "route": "tx." + route.String(), "err": fmt.Sprint(err), "panic": panicked}
 		// premise from the log: WATCH then MULTI SET INCR GET EXEC on one connection, EXEC answered nil / an array
 		got := received(e.s, n0)
 		var argv []string
@@ -619,21 +673,27 @@ func (ck *checker) abortScenarios(caseID string, rng *rand.Rand) {
 		wit["received"] = argv
 		switch {
 		case panicked != "":
-			run.Violation("panic", "Watch", wit)
+			run.Violation("panic", "Watch"+via, wit)
 		case strings.Join(argv, " ") != "WATCH MULTI SET INCR GET EXEC" || !sameConn:
-			run.Violation("watch-wire", fmt.Sprintf("Watch/conflict=%v", conflict), wit)
+			run.Violation("watch-wire", fmt.Sprintf("Watch/conflict=%v%s", conflict, via), wit)
 		case !execSeen || execNil != conflict:
 			run.Inconclusive("fakeredis did not decide the WATCH as planned")
 		case conflict:
 			run.Observe("watch_abort_real", 1)
+			if route.derived() {
+				run.Observe("watch_abort_real_on_route_through_pipeline_value", 1)
+			}
 			if !errors.Is(err, rueidiscompat.TxFailedErr) {
-				run.Violation("txfailed", "Watch/real-conflict", wit)
+				run.Violation("txfailed", "Watch/real-conflict"+via, wit)
 			}
 			if v := node.Exec("GET", wk); v.S != vx {
 				run.Inconclusive("aborted transaction had effects in fakeredis")
 			}
 		default:
 			run.Observe("watch_no_conflict", 1)
+			if route.derived() {
+				run.Observe("watch_no_conflict_on_route_through_pipeline_value", 1)
+			}
 			ok := err == nil && len(cmders) == 3
 			if ok {
 				a, b, c := capture(set), capture(incr), capture(get)
@@ -641,7 +701,7 @@ func (ck *checker) abortScenarios(caseID string, rng *rand.Rand) {
 				wit["results"] = []string{a.String(), b.String(), c.String()}
 			}
 			if !ok {
-				run.Violation("watch-success-results", "Watch/no-conflict", wit)
+				run.Violation("watch-success-results", "Watch/no-conflict"+via, wit)
 			}
 		}
 		run.Case(fmt.Sprintf("watch|%v", conflict), true)
@@ -661,25 +721,61 @@ func (ck *checker) abortScenarios(caseID string, rng *rand.Rand) {
 			}
 			return false
 		}})
-		p := e.ad.TxPipeline()
+		// the transaction pipeline is obtained from the adapter and executed on any route
+		route := randRoute(rt, true, rt.Intn(4) == 0)
+		via := ""
+		if route.derived() {
+			via = " via " + route.head()
+		}
 		k := 1 + rng.Intn(6)
+		var kv [][2]string
 		for i := 0; i < k; i++ {
-			p.Set(ctx, g.tok("k"), g.tok("v"), 0)
+			kv = append(kv, [2]string{g.tok("k"), g.tok("v")})
 		}
 		n0 := e.s.LogLen()
-		_, err = p.Exec(ctx)
+		pn := guard(func() {
+			_, err = route.exec(e.ad, route.value(e.ad), func(p rueidiscompat.Pipeliner) bool {
+				for _, x := range kv {
+					p.Set(ctx, x[0], x[1], 0)
+				}
+				return true
+			})
+		})
 		execNil := false
 		for _, ev := range e.s.Log()[n0:] {
 			if ev.Kind == "reply" && len(ev.Argv) > 0 && ev.Argv[0] == "EXEC" {
 				execNil = ev.Reply.IsNull()
 			}
 		}
-		if !execNil {
+		var sent []string
+		got := received(e.s, n0)
+		wireOK := len(got) == k+2
+		for i, ev := range got {
+			sent = append(sent, ev.Argv[0])
+			w := "SET"
+			if i == 0 {
+				w = "MULTI"
+			} else if i == len(got)-1 {
+				w = "EXEC"
+			}
+			wireOK = wireOK && strings.EqualFold(ev.Argv[0], w) && ev.Conn == got[0].Conn
+		}
+		wit := map[string]any{"case": caseID, "route": route.String(), "queued": k, "err": fmt.Sprint(err), "received": sent, "panic": pn}
+		switch {
+		case pn != "":
+			run.Violation("panic", "TxPipeline/nil-exec"+via, wit)
+		case !wireOK:
+			// MULTI, the k queued commands and EXEC have to arrive whatever EXEC is going to answer
+			run.Violation("tx-wire", "TxPipeline/nil-exec"+via, wit)
+		case !execNil:
 			run.Inconclusive("fault rule did not produce a nil EXEC")
-		} else {
+		default:
 			run.Observe("watch_abort_fault", 1)
+			if route.derived() {
+				run.Observe("watch_abort_fault_on_route_through_pipeline_value", 1)
+			}
 			if !errors.Is(err, rueidiscompat.TxFailedErr) {
-				run.Violation("txfailed", "TxPipeline/nil-exec", map[string]any{"case": caseID, "queued": k, "err": fmt.Sprint(err)})
+				run.Violation("txfailed", "TxPipeline/nil-exec"+via, wit)
 			}
 		}
 		run.Case(fmt.Sprintf("nil-exec|%d", k), true)
@@ -695,11 +791,20 @@ func (ck *checker) abortScenarios(caseID string, rng *rand.Rand) {
 			return
 		}
 		mode := "pipeline"
-		var p rueidiscompat.Pipeliner
 		if tx {
-			p, mode = e.ad.TxPipeline(), "txpipeline"
-		} else {
-			p = e.ad.Pipeline()
+			mode = "txpipeline"
+		}
+		// a pipeline value obtained on any route whose wire format the statement fixes; the commands are queued,
+		// discarded and executed on that value
+		route := randRoute(rt, tx, false).closed()
+		var p rueidiscompat.Pipeliner
+		if pn := guard(func() { p = route.value(e.ad) }); pn != "" || p == nil {
+			run.Violation("panic", mode+"/obtain "+route.head(), map[string]any{"case": caseID, "panic": pn, "nil_pipeline": p == nil})
+			e.close()
+			continue
+		}
+		if route.derived() {
+			mode += " via " + route.head()
 		}
 		k := 1 + rng.Intn(5)
 		var dropped []string
@@ -710,23 +815,32 @@ func (ck *checker) abortScenarios(caseID string, rng *rand.Rand) {
 		}
 		n0 := e.s.LogLen()
 		p.Discard()
-		wit := map[string]any{"case": caseID, "mode": mode, "queued_then_discarded": k}
+		wit := map[string]any{"case": caseID, "mode": mode, "route": route.String(), "queued_then_discarded": k}
 		if p.Len() != 0 {
 			wit["len"] = p.Len()
 			run.Violation("discard", mode+"/len", wit)
 		}
 		variant := rng.Intn(2)
 		if variant == 0 {
-			cm, err := p.Exec(ctx)
-			if got := received(e.s, n0); len(got) != 0 || len(cm) != 0 || err != nil {
-				wit["received"], wit["cmders"], wit["err"] = len(got), len(cm), fmt.Sprint(err)
+			var cm []R
+			var err error
+			pn := guard(func() { cm, err = route.exec(e.ad, p, func(rueidiscompat.Pipeliner) bool { return true }) })
+			if got := received(e.s, n0); len(got) != 0 || len(cm) != 0 || err != nil || pn != "" {
+				wit["received"], wit["cmders"], wit["err"], wit["panic"] = len(got), len(cm), fmt.Sprint(err), pn
 				run.Violation("discard", mode+"/exec-after-discard", wit)
 			}
 		} else {
 			nk, nv := g.tok("kept"), g.tok("v")
-			a := p.Set(ctx, nk, nv, 0)
-			b := p.Get(ctx, nk)
-			cm, err := p.Exec(ctx)
+			var a, b R
+			var cm []R
+			var err error
+			pn := guard(func() {
+				cm, err = route.exec(e.ad, p, func(q rueidiscompat.Pipeliner) bool {
+					a = q.Set(ctx, nk, nv, 0)
+					b = q.Get(ctx, nk)
+					return true
+				})
+			})
 			var sent []string
 			for _, ev := range received(e.s, n0) {
 				sent = append(sent, strings.Join(ev.Argv, " "))
@@ -736,7 +850,7 @@ func (ck *checker) abortScenarios(caseID string, rng *rand.Rand) {
 				wantSent = append(append([]string{"MULTI"}, wantSent...), "EXEC")
 			}
 			ra, rb := capture(a), capture(b)
-			ok := err == nil && len(cm) == 2 && reflect.DeepEqual(sent, wantSent) && !ra.HasErr && !rb.HasErr &&
+			ok := pn == "" && err == nil && len(cm) == 2 && reflect.DeepEqual(sent, wantSent) && !ra.HasErr && !rb.HasErr &&
 				reflect.DeepEqual(ra.Val, []any{"OK"}) && reflect.DeepEqual(rb.Val, []any{nv})
 			if ok {
 				ok = same(capture(cm[0]), ra) && same(capture(cm[1]), rb)
@@ -747,17 +861,20 @@ func (ck *checker) abortScenarios(caseID string, rng *rand.Rand) {
 				}
 			}
 			if !ok {
-				wit["sent"], wit["cmders"], wit["err"], wit["results"] = sent, len(cm), fmt.Sprint(err), []string{ra.String(), rb.String()}
+				wit["sent"], wit["cmders"], wit["err"], wit["results"], wit["panic"] = sent, len(cm), fmt.Sprint(err), []string{ra.String(), rb.String()}, pn
 				run.Violation("discard", mode+"/queue-after-discard", wit)
 			}
 		}
 		run.Observe("discard_checked", 1)
+		if route.derived() {
+			run.Observe("discard_checked_on_route_through_pipeline_value", 1)
+		}
 		run.Case(fmt.Sprintf("discard|%s|%d|%d", mode, k, variant), true)
 		e.close()
 	}
 }
 
-func (ck *checker) oneCase(t *testing.T, caseNo int, rng *rand.Rand, methods []reflect.Method) {
+func (ck *checker) oneCase(t *testing.T, caseNo int, rng, rt *rand.Rand, methods []reflect.Method) {
 	run := ck.run
 	caseID := fmt.Sprintf("c%d", caseNo)
 	g := newGen(rng, caseID)
@@ -863,12 +980,13 @@ func (ck *checker) oneCase(t *testing.T, caseNo int, rng *rand.Rand, methods []r
 		return segs, false
 	}
 	// (b) Pipeline, (c) TxPipeline
+	// the way each pipeline is obtained and executed comes from its own stream (rt): the programs stay what they were
 	segs, via := segsFor()
-	ck.runPipelined(caseID, false, via, prog, want, segs)
+	ck.runPipelined(caseID, randRoute(rt, false, via), prog, want, segs)
 	segs, via = segsFor()
-	ck.runPipelined(caseID, true, via, prog, want, segs)
+	ck.runPipelined(caseID, randRoute(rt, true, via), prog, want, segs)
 	if caseNo%4 == 0 {
-		ck.abortScenarios(caseID, rng)
+		ck.abortScenarios(caseID, rng, rt)
 	}
 }
 
@@ -876,20 +994,25 @@ func (ck *checker) oneCase(t *testing.T, caseNo int, rng *rand.Rand, methods []r
 func TestC41(t *testing.T) {
 	run := mon.Start(t, "C41", "exploration",
 		"random programs of 2-25 adapter calls (hand-written calls of ~105 kinds over strings, keys/expiry, hashes, lists incl. blocking pops, sets, sorted sets, streams, bit ops, scripting, JSON, Pipeliner.Do; plus reflectively generated calls of every other Pipeliner method, which fakeredis answers with 'ERR unknown command <name> <all args>'), unique keys/values per call and shared typed keys so results depend on order; "+
-			"each program runs directly, through Pipeline and through TxPipeline on identical fresh servers in virtual time, as one Exec, through Pipelined/TxPipelined, or in 2-3 Exec segments on one reused pipeline object; plus WATCH conflict / no-conflict through adapter.Watch with a concurrent writer, nil-EXEC fault, Discard, empty Exec; "+
-			"a case = (mode, entry point, sequence of method names of one Exec segment); non-trivial when the segment has at least two calls")
+			"each program runs directly, through Pipeline and through TxPipeline on identical fresh servers in virtual time, as one Exec, through Pipelined/TxPipelined, or in 2-3 Exec segments on one reused pipeline object; "+
+			"half of the pipelines are obtained and executed on a random route through the Pipeliner's own entry points (0-2 of .Pipeline()/.TxPipeline() on the pipeline value, then .Exec / .Pipelined(fn) / .TxPipelined(fn), 0-2 more hops on fn's argument): a descendant of a TxPipeline must stay MULTI/EXEC wrapped, a descendant of a Pipeline plain (left open after a Tx-named step); "+
+			"plus WATCH conflict / no-conflict through adapter.Watch with a concurrent writer, nil-EXEC fault, Discard, empty Exec, each on such routes from the Tx / the adapter; "+
+			"a case = (mode, entry point or route, sequence of method names of one Exec segment); non-trivial when the segment has at least two calls")
 	defer run.Finish()
-	run.Assume("the direct call on the plain adapter is the reference for value, error and argv of each queued call (same adapter code on both sides: a conversion wrong in both modes is invisible here)",
+	run.Assume("go-redis semantics of the Pipeliner's own entry points: Pipeline() / TxPipeline() on a pipeline value return that pipeline and Pipelined / TxPipelined on it run fn and Exec it, so a pipeline that descends from a TxPipeline keeps MULTI/EXEC on every route; for a plain Pipeline that went through a Tx-named step either wire format is accepted",
+		"the direct call on the plain adapter is the reference for value, error and argv of each queued call (same adapter code on both sides: a conversion wrong in both modes is invisible here)",
 		"fakeredis answers commands it implements like Redis and every other command with an error naming the command and all its arguments; typed reply conversions are therefore only exercised for the commands fakeredis implements",
 		"when a queued command is rejected at queue time the server discards the transaction (EXECABORT): only the wire format and 'Exec returns an error that is not TxFailedErr' are judged there")
 	methods := reflectiveMethods()
 	run.Extra("reflective_methods_available", len(methods))
 	ck := &checker{run: run, methods: map[string]bool{}}
 	rng := run.Rand("programs")
+	routes := run.Rand("routes")
 	n := run.N(400, 12000)
 	for i := 0; i < n; i++ {
 		sub := rand.New(rand.NewSource(rng.Int63()))
-		dl, stacks := drv.Bubble(t, func() { ck.oneCase(t, i, sub, methods) })
+		rsub := rand.New(rand.NewSource(routes.Int63()))
+		dl, stacks := drv.Bubble(t, func() { ck.oneCase(t, i, sub, rsub, methods) })
 		if dl != "" {
 			run.Violation("hang-or-leak", fmt.Sprintf("case-%d", i), map[string]any{"synctest": dl, "rueidis_frames": drv.RueidisFrames(stacks), "stacks": drv.Tail(stacks, 12000)})
 		}
@@ -901,5 +1024,11 @@ func TestC41(t *testing.T) {
 	}
 	run.Extra("methods_compared", len(ms))
 	run.Require("tx_elements_mapped", "tx_full_checked", "tx_execabort", "pipeline_results_compared", "error_results_compared", "exec_first_error_checked",
-		"watch_abort_real", "watch_no_conflict", "watch_abort_fault", "discard_checked", "reused_after_exec", "tx_batches_on_wire", "commands_queued_after_call_that_queues_nothing")
+		"watch_abort_real", "watch_no_conflict", "watch_abort_fault", "discard_checked", "reused_after_exec", "tx_batches_on_wire", "commands_queued_after_call_that_queues_nothing",
+		// every way of obtaining / executing a pipeline from a pipeline value was produced and its wire format checked
+		"tx_wire_checked_on_route_through_pipeline_value", "pipeline_wire_checked_on_route_through_pipeline_value",
+		"wire_checked_tx_value_Pipeline", "wire_checked_tx_value_TxPipeline", "wire_checked_tx_value_Pipelined_fn", "wire_checked_tx_value_TxPipelined_fn",
+		"wire_checked_tx_value_derived_Exec", "wire_checked_tx_value_fn_arg_Pipeline", "wire_checked_tx_value_fn_arg_TxPipeline",
+		"wire_checked_plain_value_Pipeline", "wire_checked_plain_value_Pipelined_fn",
+		"watch_abort_real_on_route_through_pipeline_value", "watch_abort_fault_on_route_through_pipeline_value", "discard_checked_on_route_through_pipeline_value")
 }
